@@ -64,7 +64,8 @@ def check(ctx):
     # ---- dense reference
     cells = [("mono_P", (1, 1, 1)), ("tri2_P1", (1, 1, 1)), ("tri1", (2, 1, 1)), ("hcp", (1, 1, 1)), ("tri3_P1", (1, 1, 1)), ("tri2_obtuse", (1, 1, 1))]
     if not ctx.quick:
-        cells += [("bcc_conv", (1, 1, 1)), ("tri2_Pm1", (1, 1, 1)), ("ortho_C", (1, 1, 1)), ("si_prim", (1, 1, 1)), ("tri1", (3, 1, 1)), ("nacl_prim", (1, 1, 1)), ("rhombo2", (1, 1, 1)), ("sheared", (1, 1, 1)), ("mono_C", (1, 1, 1))]
+        cells += [("bcc_conv", (1, 1, 1)), ("tri2_Pm1", (1, 1, 1)), ("ortho_C", (1, 1, 1)), ("si_prim", (1, 1, 1)), ("tri1", (3, 1, 1)), ("nacl_prim", (1, 1, 1)), ("rhombo2", (1, 1, 1)), ("sheared", (1, 1, 1)), ("mono_C", (1, 1, 1)),
+                  ("mono_P", (2, 1, 1)), ("tri2_P1", (1, 2, 1)), ("p3_general", (1, 1, 1)), ("tri1", (4, 1, 1)), ("tri1", (2, 2, 1))]   # N = 4: order 3 through the dense reference
     described = [make_supercell(base_cells()[cname], diag, rng=rng, shuffle=True) for cname, diag in cells]
     # the same crystals in strongly sheared (non-reduced) lattice bases, coordinates wrapped into [0,1)
     for cname in (("tri2_P1", "hcp") if ctx.quick else ("tri2_P1", "hcp", "mono_P", "tri3_P1", "si_prim")):
@@ -89,7 +90,7 @@ def check(ctx):
             if len(shells) >= 2 and shells[-1] - shells[-2] > 1e-2:
                 cuts.append(shells[-1] - 1e-3)      # just below the largest distance (any "the cutoff is redundant" shortcut must not fire)
         for order in (2, 3, 4):
-            if order == 4 and N > 2 or order == 3 and N > 3:
+            if order == 4 and N > 2 or order == 3 and N > (3 if ctx.quick else 4):
                 continue
             for cut in cuts:
                 near = None if cut is None else dist < cut
